@@ -225,4 +225,28 @@ def parseFlags : List Nat → Bool → Bool → Bool → Option (Bool × Bool ×
     else if c = 105 then (if i then none else parseFlags cs g true mm)
     else none
 
+/-- §15.10.4.1: `source` is a Pattern S such that "/" S "/" flags is a RegularExpressionLiteral that
+    behaves identically: the empty pattern as `(?:)` (else the literal would be the comment `//`),
+    and every `/` that would end the literal (not escaped, not inside a class, §7.8.5) escaped -/
+def sourceLoop : List Nat → Bool → Bool → List Nat
+  | [], _, _ => []
+  | c :: cs, escaped, inClass =>
+    if escaped then c :: sourceLoop cs false inClass
+    else if c = 92 then c :: sourceLoop cs true inClass
+    else if c = 91 then c :: sourceLoop cs false true
+    else if c = 93 then c :: sourceLoop cs false false
+    else if c = 47 ∧ !inClass then 92 :: c :: sourceLoop cs false inClass
+    else c :: sourceLoop cs false inClass
+
+def source (pattern : List Nat) : List Nat :=
+  if pattern.isEmpty then [40, 63, 58, 41] else sourceLoop pattern false false
+
+/-- §15.10.3.1 RegExp(R) with flags undefined returns R; §15.10.4.1 new RegExp(R) with flags undefined
+    builds a new object from R's pattern AND flags; with flags defined: TypeError.
+    none = TypeError; some (same object?, pattern, flags). -/
+def fromRegExp (pat flags : List Nat) (withNew : Bool) (flagsGiven : Bool) : Option (Bool × List Nat × List Nat) :=
+  if !withNew ∧ !flagsGiven then some (true, pat, flags)
+  else if flagsGiven then none
+  else some (false, pat, flags)
+
 end OttoVerif.C10.Spec
